@@ -195,36 +195,63 @@ func runC08(c *core.Ctx) {
 		}
 		return true
 	})
+	// the switches are in the marshalling function itself or in helpers it calls (one level); a helper called after the
+	// reflect Call (or inside the loop over its results) converts results, one called before converts parameters
+	type swScope struct {
+		body     ast.Node
+		inHelper bool
+		isResult bool
+	}
+	scopes := []swScope{{marsh.Body, false, false}}
+	helperArm := map[*ast.CaseClause]bool{}
 	ast.Inspect(marsh.Body, func(n ast.Node) bool {
-		sw, ok := n.(*ast.SwitchStmt)
-		if !ok || sw.Tag == nil {
-			return true
-		}
-		if tv, ok := info.Types[sw.Tag]; !ok || !types.Identical(tv.Type, kindT) {
-			return true
-		}
-		for _, s := range sw.Body.List {
-			cc := s.(*ast.CaseClause)
-			var ks []string
-			for _, l := range cc.List {
-				if se, ok := ast.Unparen(l).(*ast.SelectorExpr); ok {
-					ks = append(ks, se.Sel.Name)
-				} else if id, ok := ast.Unparen(l).(*ast.Ident); ok {
-					ks = append(ks, id.Name)
+		if call, ok := n.(*ast.CallExpr); ok {
+			if f := core.Callee(info, call); f != nil && f.Pkg() == wp.Types {
+				if hd := declOf(wp, f); hd != nil && hd != marsh {
+					scopes = append(scopes, swScope{hd.Body, true, call.Pos() > callPos})
 				}
-			}
-			if cc.List == nil {
-				continue
-			}
-			// the result switch is the one lexically enclosing/after the reflect Call
-			if sw.Pos() > callPos || (sw.Pos() < callPos && callPos < sw.End()) {
-				resultArms = append(resultArms, arm{ks, cc})
-			} else {
-				paramArms = append(paramArms, arm{ks, cc})
 			}
 		}
 		return true
 	})
+	for _, sc := range scopes {
+		sc := sc
+		ast.Inspect(sc.body, func(n ast.Node) bool {
+			sw, ok := n.(*ast.SwitchStmt)
+			if !ok || sw.Tag == nil {
+				return true
+			}
+			if tv, ok := info.Types[sw.Tag]; !ok || !types.Identical(tv.Type, kindT) {
+				return true
+			}
+			for _, s := range sw.Body.List {
+				cc := s.(*ast.CaseClause)
+				var ks []string
+				for _, l := range cc.List {
+					if se, ok := ast.Unparen(l).(*ast.SelectorExpr); ok {
+						ks = append(ks, se.Sel.Name)
+					} else if id, ok := ast.Unparen(l).(*ast.Ident); ok {
+						ks = append(ks, id.Name)
+					}
+				}
+				if cc.List == nil {
+					continue
+				}
+				// the result switch is the one lexically enclosing/after the reflect Call
+				isRes := sw.Pos() > callPos || (sw.Pos() < callPos && callPos < sw.End())
+				if sc.inHelper {
+					isRes = sc.isResult
+					helperArm[cc] = true
+				}
+				if isRes {
+					resultArms = append(resultArms, arm{ks, cc})
+				} else {
+					paramArms = append(paramArms, arm{ks, cc})
+				}
+			}
+			return true
+		})
+	}
 	if len(paramArms) == 0 || len(resultArms) == 0 {
 		c.Undecided("R08.1", "kind switches in "+core.FuncName(wp, marsh), marsh.Pos(), fmt.Sprintf("expected a parameter and a result switch over reflect.Kind, found %d/%d arms", len(paramArms), len(resultArms)))
 		return
@@ -245,6 +272,15 @@ func runC08(c *core.Ctx) {
 			}
 			return true
 		})
+		if helperArm[a.cc] {
+			// in a helper the slot value is what the arm returns
+			ast.Inspect(a.cc, func(n ast.Node) bool {
+				if rs, ok := n.(*ast.ReturnStmt); ok && len(rs.Results) == 1 {
+					stores = append(stores, rs.Results[0])
+				}
+				return true
+			})
+		}
 		for _, k := range a.kinds {
 			key := "result " + k
 			if len(stores) == 0 {
